@@ -6,16 +6,41 @@ namespace sim {
 
 using json = nlohmann::ordered_json;
 
+// strings that are not valid UTF-8 (storage-damaged texts) travel hex-encoded so that plans stay byte-exact
+inline bool Utf8Ok(const std::string& s) {
+  for (size_t i = 0; i < s.size();) {
+    const unsigned char c = static_cast<unsigned char>(s[i]);
+    size_t n; if (c < 0x80) n = 1; else if ((c & 0xE0) == 0xC0) n = 2; else if ((c & 0xF0) == 0xE0) n = 3; else if ((c & 0xF8) == 0xF0) n = 4; else return false;
+    if (i + n > s.size()) return false;
+    for (size_t k = 1; k < n; ++k) if ((static_cast<unsigned char>(s[i + k]) & 0xC0) != 0x80) return false;
+    if (n == 2 && c < 0xC2) return false;
+    if (n == 3) { const unsigned cp = ((c & 0x0Fu) << 12) | ((static_cast<unsigned char>(s[i + 1]) & 0x3Fu) << 6); if (cp < 0x800 || (cp >= 0xD800 && cp < 0xE000)) return false; }
+    if (n == 4) { const unsigned cp = ((c & 0x07u) << 18) | ((static_cast<unsigned char>(s[i + 1]) & 0x3Fu) << 12); if (cp < 0x10000 || cp > 0x10FFFF) return false; }
+    i += n;
+  }
+  return true;
+}
+inline std::string EncodeStr(const std::string& s) {
+  static const char* hx = "0123456789abcdef";
+  if (Utf8Ok(s) && s.compare(0, 5, "\x01hex:") != 0) return s;
+  std::string r = "\x01hex:"; for (unsigned char c : s) { r += hx[c >> 4]; r += hx[c & 15]; } return r;
+}
+inline std::string DecodeStr(const std::string& s) {
+  if (s.compare(0, 5, "\x01hex:") != 0) return s;
+  std::string r; auto v = [](char c) { return c <= '9' ? c - '0' : c - 'a' + 10; };
+  for (size_t i = 5; i + 1 < s.size(); i += 2) r += static_cast<char>((v(s[i]) << 4) | v(s[i + 1]));
+  return r;
+}
 inline json ToJson(const Op& o) {
   json j; j["id"] = o.id; if (o.client) j["c"] = o.client; j["k"] = o.kind;
   if (!o.n.empty()) j["n"] = o.n;
-  if (!o.s.empty()) j["s"] = o.s;
+  if (!o.s.empty()) { json a = json::array(); for (auto& x : o.s) a.push_back(EncodeStr(x)); j["s"] = a; }
   return j;
 }
 inline Op OpFromJson(const json& j) {
   Op o; o.id = j.value("id", 0); o.client = j.value("c", 0); o.kind = j.at("k").get<std::string>();
   if (j.contains("n")) o.n = j["n"].get<std::vector<int64_t>>();
-  if (j.contains("s")) o.s = j["s"].get<std::vector<std::string>>();
+  if (j.contains("s")) for (auto& x : j["s"]) o.s.push_back(DecodeStr(x.get<std::string>()));
   return o;
 }
 struct KnownFinding {
@@ -296,6 +321,10 @@ struct Minimiser {
           auto t = cur; t[i].n[a] = cand;
           if (Still(t)) { cur = t; break; }
         }
+      }
+      for (size_t a = cur[i].s.size(); a-- > 0 && reruns < budget && cur[i].s.size() > 1;) {   // drop whole string arguments
+        auto t = cur; t[i].s.erase(t[i].s.begin() + static_cast<long>(a));
+        if (Still(t)) cur = t;
       }
       for (size_t a = 0; a < cur[i].s.size() && reruns < budget; ++a) {
         bool progress = true;
@@ -616,7 +645,7 @@ int Main(int argc, char** argv, Engine& e) {
     // final execution of the minimised plan, twice (same-plan-twice hash match)
     auto f1 = RunForked(e, p, false, paths), f2 = RunForked(e, p, false, paths);
     if (f1.out.kind == Outcome::OK || f1.out.v.Class() != v0.Class() || f2.out.kind != f1.out.kind || f2.out.hash != f1.out.hash) {
-      fprintf(stderr, "MACHINERY: minimised plan for run %" PRIu64 " does not reproduce deterministically\n", run); ++machineryFaults; return;
+      fprintf(stderr, "MACHINERY: minimised plan for run %" PRIu64 " does not reproduce deterministically (original %s; replays %s hash %016" PRIx64 " / %s hash %016" PRIx64 ")\n", run, v0.Class().c_str(), f1.out.Class().c_str(), f1.out.hash, f2.out.Class().c_str(), f2.out.hash); ++machineryFaults; return;
     }
     json j = PlanToJson(p);
     j["oracle_id"] = v0.oracle; j["trigger"] = v0.trigger;
